@@ -35,7 +35,45 @@ IMPL = 'pcbasic/basic/implementation.py'
 INTERP = 'pcbasic/basic/interpreter.py'
 
 
+def _rebuilt_streams_keep_position(ctx, rep):
+    """A stream object that cannot be pickled and is rebuilt in __setstate__ starts at offset 0: the class must carry
+    the position across (tell() stored by __getstate__, seek() to the same key in __setstate__), or a half-read /
+    half-written FIELD buffer restarts from its beginning after resume."""
+    n = 0
+    for cls in ctx.idx.classes_in('pcbasic/basic/') if hasattr(ctx.idx, 'classes_in') else _classes(ctx):
+        m = class_methods(cls)
+        gs, ss = m.get('__getstate__'), m.get('__setstate__')
+        if gs is None or ss is None:
+            continue
+        rebuilt = [a for a in own_nodes(ss) if isinstance(a, ast.Assign) and isinstance(a.targets[0], ast.Attribute) and norm(a.targets[0].value) == 'self'
+                   and isinstance(a.value, ast.Call) and norm(a.value.func).split('.')[-1] in ('ByteStream', 'BytesIO')]
+        for a in rebuilt:
+            n += 1
+            attr = 'self.' + a.targets[0].attr
+            tells = [x for x in own_nodes(gs) if isinstance(x, ast.Assign) and isinstance(x.value, ast.Call) and norm(x.value.func) == attr + '.tell'
+                     and isinstance(x.targets[0], ast.Subscript) and isinstance(x.targets[0].slice, ast.Constant)]
+            ok, detail = False, '__getstate__ does not record %s.tell()' % attr
+            if len(tells) == 1:
+                key = tells[0].targets[0].slice.value
+                reads = [x for x in own_nodes(ss) if isinstance(x, ast.Assign) and isinstance(x.value, (ast.Call, ast.Subscript)) and repr(key) in norm(x.value)
+                         and isinstance(x.targets[0], ast.Name)]
+                seeks = [c for c in own_nodes(ss) if isinstance(c, ast.Call) and norm(c.func) == attr + '.seek' and c.args and reads
+                         and norm(c.args[0]) == reads[0].targets[0].id and c.lineno > a.lineno]
+                ok = len(reads) == 1 and len(seeks) == 1
+                detail = '__setstate__ rebuilds %s but does not seek to the recorded position %r' % (attr, key)
+            rep.ob('state.rebuilt-stream-keeps-position', '%s: %s is rebuilt on resume at the position it had' % (cls.name, attr), ok, detail, ctx.where(a))
+    rep.floor('state.rebuilt-stream-keeps-position', n, 1, 'streams rebuilt in __setstate__')
+
+
+def _classes(ctx):
+    for m in ctx.idx.modules.values():
+        if m.path.startswith('pcbasic/basic/'):
+            for c in m.classes.values():
+                yield c
+
+
 def check(ctx, rep):
+    _rebuilt_streams_keep_position(ctx, rep)
     keys = ctx.const(ST, 'HEADER_KEYS')
     fmt = ctx.const(ST, 'HEADER_FORMAT')
     nfields = len([c for c in fmt if c.isalpha()])
@@ -187,6 +225,8 @@ def variants(ctx):
         return lambda tree: f(mu.find_def(tree, path_fn))
 
     return [
+        Va('field-buffer-position-lost', 'break', 'pcbasic/basic/devices/diskfiles.py',
+           lambda tree: mu.remove_stmt(mu.find_def(tree, 'FieldFile.__setstate__'), mu.text_is('self._fhandle.seek(pos)')), expect='state.rebuilt-stream'),
         Va('format-version-unchecked', 'break', ST,
            in_fn('load_session', lambda fn: mu.remove_stmt(fn, lambda st: isinstance(st, ast.If) and "header_dict['format_version']" in norm(st.test))), expect='header.every-field'),
         Va('minor-version-unchecked', 'break', ST,
